@@ -151,6 +151,9 @@ func (c *Ctx) valueSource(ia *interpAnchors, v ssa.Value, depth int) string {
 		name := "dynamic"
 		if cal := x.Call.StaticCallee(); cal != nil {
 			name = cal.String()
+			if cal == ia.load {
+				name = "@dictstack-lookup"
+			}
 			if o := cal.Origin(); o != nil {
 				cal = o
 			}
@@ -197,7 +200,7 @@ var shareTable = map[string]map[string]string{
 	"exch":           {"push": "operand1|operand2", "stackstore": "operand1|operand2"},
 	"getinterval":    {"push": "interval(operand3)"},
 	"get":            {"push": "element(operand2)"},
-	"load":           {"push": "call (*seehuhn.de/go/postscript.Interpreter).load(operand1)"},
+	"load":           {"push": "call @dictstack-lookup(operand1)"},
 	"cvx":            {"push": "operand1", "stackstore": "operand1"},
 }
 
